@@ -235,6 +235,10 @@ func (w *worker[T, JobType]) WaitUntilFinished() {
 }
 
 func (w *worker[T, JobType]) Errs() <-chan error {
+	// Stop and Restart replace the channel under the mutex
+	w.mx.RLock()
+	defer w.mx.RUnlock()
+
 	return w.errorChan
 }
 
@@ -740,6 +744,10 @@ func (w *worker[T, JobType]) Resume() error {
 }
 
 func (w *worker[T, JobType]) Context() context.Context {
+	// Restart replaces the context under the mutex
+	w.mx.RLock()
+	defer w.mx.RUnlock()
+
 	return w.ctx
 }
 
